@@ -140,6 +140,16 @@ pub fn apply(bytes: &[u8], sp: &[Span], mu: &Mutation, chunk: usize) -> Option<V
             wr(&mut b, s.off, s.width, s.len as u64 - 1)
         },
         "prefix-max" => wr(&mut b, s.off, s.width, maxv),
+        "prefix-wide" => {
+            if !vint || b.len() < s.off + 9 {
+                // make room for the eight length bytes that a zero first byte announces
+                b.resize(b.len().max(s.off + 9), 0xff);
+            }
+            b[s.off] = 0;
+            for x in b[s.off + 1..s.off + 9].iter_mut() {
+                *x = 0x7f;
+            }
+        },
         "empty" => {
             if s.len == 0 {
                 return None;
